@@ -104,12 +104,23 @@ func (s *set[ElementType]) Replace(elements ds.ReadableSet[ElementType]) (remove
 	return appliedMutations.DeletedElements()
 }
 
-// Decode decodes the set from a byte slice.
+// Decode decodes the set from a byte slice. The decoded elements are added like with AddAll, so subscribers (and sets
+// derived from this set) are notified about them.
 func (s *set[ElementType]) Decode(api *serix.API, b []byte) (bytesRead int, err error) {
-	s.readableSet.mutex.Lock()
-	defer s.readableSet.mutex.Unlock()
+	decodedElements := ds.NewSet[ElementType]()
+	if bytesRead, err = decodedElements.Decode(api, b); err != nil {
+		return bytesRead, err
+	}
 
-	return s.value.Decode(api, b)
+	s.AddAll(decodedElements)
+
+	return bytesRead, nil
+}
+
+// Clear removes all elements from the set and notifies the subscribers about the removed elements (the method is part
+// of the embedded ds.ReadableSet and would otherwise empty the underlying set behind the back of all subscribers).
+func (s *set[ElementType]) Clear() {
+	s.Replace(ds.NewSet[ElementType]())
 }
 
 // ReadOnly returns a read-only version of the set.
